@@ -2,6 +2,7 @@
 import itertools, random
 KEYSETS = [["a"], ["a", "b"], ["b", "c.x"], ["c.x", "c.y"], [], ["a", "b", "c.x", "c.y"], ["c.y"]]
 OPT_KINDS = [("add", "raw"), ("add", "args"), ("set", "raw"), ("set", "args"), ("file", "file")]
+USER_LKS = ["ordm", "ordz", "ordp", "priom", "priop"]     # user-written loaders implementing Ordered / Priority
 
 
 def all_sequences(max_opts, keysets, vals=(1, 2)):
@@ -22,6 +23,10 @@ def rand_sequence(rng, max_opts):
         i = rng.randrange(0, len(out) - 2)
         j = rng.randrange(i + 2, len(out))
         out[j] = dict(out[j], keys=list(out[i]["keys"]), val=out[i]["val"], lk=out[j]["lk"])
+    if rng.random() < 0.35:         # user-written ordered / priority loaders among the built-in ones
+        for o in out:
+            if o["kind"] in ("add", "set") and rng.random() < 0.5:
+                o["lk"] = rng.choice(USER_LKS)
     if rng.random() < 0.4:          # variadic calls: Set/AddConfigLoader(l1, l2, ...) with loaders of any kind, file loaders included
         i = 0
         while i < len(out):
